@@ -33,7 +33,7 @@ REAL = ["aiohomekit.zeroconf (ZeroconfController, HomeKitService.from_service_in
         "BlePairing/IpPairing/CoAPPairing._async_description_update", "zeroconf DNSCache + ServiceInfo parsing"]
 STUB = ["zeroconf network engine / browser (stub firing the registered handler), AsyncServiceInfo.async_request = cache load", "BleakScanner",
         "BLE establish_connection (always fails: not connectable)", "TCP (every address unreachable)"]
-ASSUMPTIONS = ["finder ids are passed in lower case (the property's case clause is about advertisement contents)",
+ASSUMPTIONS = ["finder ids are spelled in lower, upper or mixed case and must be treated case-insensitively",
                "unknown category numbers and truncated adverts are only required not to raise / not to wake waiters of other ids"]
 TIERS = {"quick": {"runs": 40000, "wall": 55}, "thorough": {"runs": 2000000, "wall": 1500}}
 
@@ -82,7 +82,7 @@ def gen_plan(seed: int, tier: str) -> dict:
         x = r.random()
         dev = r.choice(IDS[:n_ids])
         if x < 0.35:
-            op = {"op": "find", "id": dev, "timeout": r.choice([0.25, 0.5, 0.5, 1.0, 2.0, 5.0])}
+            op = {"op": "find", "id": dev, "timeout": r.choice([0.25, 0.5, 0.5, 1.0, 2.0, 5.0]), "spell": r.choice(["lower", "lower", "upper", "mixed"])}
             if r.random() < 0.15:
                 op["cancel_after"] = r.choice([0.0, 0.1, 0.5, 0.6])
         elif x < 0.92:
@@ -250,11 +250,15 @@ def execute(plan: dict, ch: Chooser) -> dict:
         def start_find(op):
             rec = {"id": op["id"], "t0": loop.time(), "timeout": op["timeout"], "t1": None, "res": None, "exc": None, "cancelled": False}
             waiters.append(rec)
-            ctx.event("find", op["id"], op["timeout"])
+            ctx.event("find", op["id"], op["timeout"], op.get("spell"))
+            # ids are hexadecimal and case-insensitive: the caller may spell them in upper or mixed case
+            spelled = {"upper": op["id"].upper(), "mixed": "".join(c.upper() if i % 2 else c for i, c in enumerate(op["id"]))}.get(op.get("spell"), op["id"])
+            if spelled != op["id"]:
+                ctx.probe("find_id_not_lower_case")
 
             async def runner():
                 try:
-                    rec["res"] = await finder.async_find(op["id"], op["timeout"])
+                    rec["res"] = await finder.async_find(spelled, op["timeout"])
                 except asyncio.CancelledError:
                     rec["exc"] = "CancelledError"
                 except BaseException as e:  # noqa: BLE001
